@@ -69,6 +69,17 @@ CHECKS = {
              "parity with 0-3 operands, and .even/.odd/.align m for every m in 1..64 at every residue.",
         note="Trusted: Python codecs for utf-8/koi8-r/latin-1/cp866; for bk only ASCII, U+0080-9F and KOI8 letters (rest is C14).",
         design="4/C06"),
+    "C07": dict(
+        category="fault_enumeration",
+        technique="fault catalogue planting + Hypothesis CLI configurations; model iff, observation iff, directory-snapshot oracle and metamorphic comparison across report formats and -W lists",
+        text="Programs with 0-3 planted faults from the calibrated catalogue (parse-time, compile-time, link-time, critical, warning-only) "
+             "are run through the real CLI entry point in 4-8 configurations (graphical/bare x drawn -W lists) with drawn output "
+             "selections and --lst. Exit status must be non-zero iff an error-severity fault was planted and iff an error diagnostic was "
+             "printed; a failing run must leave the directory snapshot untouched; a succeeding run must create exactly the predicted "
+             "files holding the container of the image; status, file set and bytes must not depend on the configuration. The "
+             "output-phase failure class (unwritable output) is generated separately: its non-atomicity is the recorded known finding F-io.",
+        note="Trusted: severities in vf/mutate.py; the forked-child CLI driver (cross-checked against a real subprocess in C13).",
+        design="4/C07"),
     "C09": dict(
         category="exploration",
         technique="Hypothesis programs assembled at three bases: metamorphic relocation law plus differential against the reference assembler",
